@@ -160,6 +160,23 @@ func init() {
 			c11Case(c, ref.ToJSON(mk(t[0])), ref.ToJSON(mk(t[1])), o)
 		},
 	})
+	p.Strata = append(p.Strata, mon.Stratum{
+		Name:       "tricky-pairs",
+		N:          n(len(trickyPairs) * 2 * 3 * 3),
+		Exhaustive: always,
+		Run: func(c *mon.Ctx, i int) {
+			tp := trickyPairs[i%len(trickyPairs)]
+			if (i/len(trickyPairs))%2 == 1 {
+				tp[0], tp[1] = tp[1], tp[0]
+			}
+			how := []int{0, 2, 1}[(i/(2*len(trickyPairs)))%3]
+			o := []OptSet{OptMerge, OptSetMerge, OptMsMerge}[(i/(6*len(trickyPairs)))%3]
+			a, _ := wrapText(tp[0], how)
+			b, _ := wrapText(tp[1], how)
+			c.Feature("tricky_pairs")
+			c11Case(c, a, b, o)
+		},
+	})
 	small := smallMergeDocs(false)
 	p.Strata = append(p.Strata, mon.Stratum{
 		Name:       "exh-small-docs/MERGE",
